@@ -181,6 +181,7 @@ pub fn clauses() -> Vec<Clause> {
         v.push(Clause::generated("C06", format!("C06/{name}/definition/Q"), rule, 2500, 60_000, trend_strategy(vd.mk), wrap_labels(def_check_q(format!("C06/{name}/definition/Q"), vd.clone()))).with_shard(150));
         v.push(Clause::generated("C06", format!("C06/{name}/long/Q"), "long histories: N in 3..10, 300..1200 values (tiled grammar stream); same definitions at every full-window step.", 40, 1000, def_strategy_long(vd.clone()), wrap_labels(def_check_q(format!("C06/{name}/long/Q"), vd.clone()))).with_shard(8));
         v.push(Clause::generated("C06", format!("C06/{name}/ultra/Q"), ULTRA_RULE, 2, 40, def_strategy_ultra(vd.clone()), def_check_ultra_q(format!("C06/{name}/ultra/Q"), vd.clone())).with_shard(2));
+        v.push(Clause::generated("C06", format!("C06/{name}/chained/Q"), CHAINED_RULE, 500, 12_000, def_strategy_chained(vd.clone()), def_check_chained_q(format!("C06/{name}/chained/Q"), vd.clone())).with_shard(100));
         let unit = name != "CenterOfGravity";
         v.push(
             Clause::generated(
